@@ -9,7 +9,7 @@ from harness import explog as E
 
 PID = "C02"
 OPS = {"exp_so3", "exp_se3_gen", "exp_se23_gen", "exp_se3_screw", "exp_se23_screw", "hom_se3", "hom_so3",
-       "exp_so2", "exp_se2", "exp_rn", "exp_prod", "hom_c"}
+       "exp_so2", "exp_se2", "exp_rn", "exp_prod", "hom_c", "exp_nearturn"}
 
 
 def call(f, *args):
@@ -79,6 +79,41 @@ def replay(run, cache, tv):
         k = f"{kind.upper()}{tv['rep']}/hom"
         cmp.vec(f"{k}/lhs/{cell}", "exp((s+t)x) differs from the exact element", out[0], M, tv)
         cmp.vec(f"{k}/rhs/{cell}", "exp(sx)exp(tx) differs from exp((s+t)x)", out[1], M, tv)
+    elif op == "exp_nearturn":
+        # rotation angle 2 pi - 10^-k ("just under 2 pi"): the expectation is the matrix exponential at 50 digits
+        import mpmath as mp
+        kind, rep = tv["kind"], tv["rep"]
+        built = E.f_exp(cache, kind, rep)
+        if isinstance(built, tuple) and not callable(built[0]):
+            run.violation(f"{kind}->{rep}/exp/raises", str(built[1]), {"tv": tv}); return
+        f, names = built
+        u = np.array(tv["axis"], float); u = u / np.linalg.norm(u)
+        x = (2 * math.pi - 10.0 ** (-tv["k"])) * u
+        a = {"so3": x, "se3": np.concatenate([[0.3, -1.2, 2.0], x]), "se23": np.concatenate([[0.3, -1.2, 2.0], [-0.7, 0.4, 1.1], x])}[kind]
+
+        def hat(a_):
+            w = a_[-3:]
+            K = [[0, -w[2], w[1]], [w[2], 0, -w[0]], [-w[1], w[0], 0]]
+            n = {"so3": 3, "se3": 4, "se23": 5}[kind]
+            M = mp.zeros(n)
+            for i in range(3):
+                for j in range(3):
+                    M[i, j] = mp.mpf(float(K[i][j]))
+            if kind == "se3":
+                for i in range(3):
+                    M[i, 3] = mp.mpf(float(a_[i]))
+            if kind == "se23":
+                for i in range(3):
+                    M[i, 3] = mp.mpf(float(a_[3 + i])); M[i, 4] = mp.mpf(float(a_[i]))     # columns (v, p) of the 5x5 form
+            return M
+        with mp.workdps(50):
+            W = np.array(mp.expm(hat(a)).tolist(), dtype=float)
+            Wn = np.array(mp.expm(-hat(a)).tolist(), dtype=float)
+        out = call(f, a)
+        kk = f"{kind.upper()}{rep}/exp_nearturn"
+        cmp.vec(f"{kk}/matrix/k{tv['k']}", "exp(x) is not the matrix exponential just under a full turn", out[0], W, tv)
+        cmp.vec(f"{kk}/neg_is_inverse/k{tv['k']}", "exp(-x) is not the inverse of exp(x) just under a full turn", out[1], Wn, tv)
+        cmp.vec(f"{kk}/inverse/k{tv['k']}", "exp(x).inverse() is not the matrix inverse just under a full turn", out[2], Wn, tv)
     elif op == "exp_so2":
         c, s, h = tv["cs"]
         th = math.atan2(s, c)
@@ -169,7 +204,7 @@ def main():
         if ops[tv["op"]] == 3:
             run.sample({k: tv[k] for k in tv if k not in ("exp", "Ad", "E", "p", "p2")}, limit=12)
         replay(run, cache, tv)
-    if set(ops) != OPS or not {"zero", "small", "nearpi", "pi", "beyondpi", "regular", "nearpole"} <= set(cells):
+    if set(ops) != OPS or not {"zero", "small", "nearpi", "pi", "beyondpi", "regular", "nearpole", "nearturn"} <= set(cells):
         raise MachineryError(f"vacuous coverage: ops={sorted(OPS - set(ops))} cells={sorted(cells)}")
     run.assumptions += [
         "algebra elements of rational half-angle type (dense, countable): theta = 2 atan2(|v|, w) for integer (w, v), from 5e-4 rad to just under 2 pi, both sides of both Taylor switches, exactly 0 and exactly pi",
